@@ -73,7 +73,7 @@ def gen_replacement(rng, els, P, mode=None):
     if rel and rng.random() < 0.3:
         # a parameterised pattern: force-field type labels that differ from the element symbols (the search pattern, built from
         # elements, labels the same atoms by element - "common to both patterns" is a matter of element and place, not of label)
-        suffix = {e: rng.choice(["_3", "_R", "1", "_x2", "_" + e.lower()]) for e in set(rel)}
+        suffix = {e: rng.choice(["_3", "_R", "1", "_x2", "_" + e.lower()]) for e in sorted(set(rel))}
         out["labels"] = [e + suffix[e] + ("b" if rng.random() < 0.2 else "") for e in rel]
     return out
 
